@@ -480,7 +480,7 @@ def translate_functions(path, sigs, namespace, header=''):
         except Refuse as e:
             raise Refuse(f'{os.path.basename(path)}:{name}: {e}')
         rets[name] = ret
-        META.append({'py': name, 'lean': lname, 'params': list(t.param_names), 'sig': sig, 'path': path,
+        META.append({'py': pyname, 'lean': lname, 'params': list(t.param_names), 'sig': sig, 'path': path,
                      'block': bool(sig.get('block')) or bool(sig.get('call_as'))})
         out.append(f'/-- translated from `{os.path.basename(path)}:{name}` (line {fns[name].lineno}) -/\n' + text)
         if t.specialised or t.folded:
